@@ -259,7 +259,7 @@ def sound(d) -> bool:
         if not (v == v):
             return False
         c = copy.deepcopy(v)
-        return bool(c == v and v == c)
+        return bool(c == v and v == c) and no_dup_keys(d)
     except Exception:
         return False
 
